@@ -452,13 +452,18 @@ def run_worker_case(case):
                     H.watch(max(1, arg))
 
             def after(where):
+                """the clauses, in root-cause order; the first one that fails ends the case"""
+                if res.problems:
+                    return
                 if H.watch_dead is not None:
                     e = H.watch_dead
                     res.fail(exc_sig('result_watcher_died', e),
                              '%r (results so far per request: %r)' % (e, n_results))
+                    return
                 dup = sorted(u for u, n in n_results.items() if n > 1)
                 if dup:
                     res.fail('request_answered_twice', '%s' % dup)
+                    return
                 # a request whose process is gone, with no result queued or delivered,
                 # will never be answered and never give its resources back
                 gone = [u for u in outstanding
